@@ -15,6 +15,7 @@ import (
 	"pgregory.net/rapid"
 	"verif/harness/evid"
 	"verif/harness/ref"
+	"verif/harness/wsx"
 )
 
 // C02 — everything an endpoint emits is a conformant RFC 6455 / RFC 7692 frame stream.
@@ -39,9 +40,14 @@ var c02Modes = []c03Mode{
 	{"client/ct+both-resp", true, websocket.CompressionContextTakeover, "permessage-deflate; client_no_context_takeover; server_no_context_takeover"},
 	{"client/ct+window-bits-resp", true, websocket.CompressionContextTakeover, "permessage-deflate; server_max_window_bits=12"},
 	{"client/ct+declined", true, websocket.CompressionContextTakeover, ""},
+	// the client offers nothing and the server answers permessage-deflate all the same: Dial refuses that
+	// (C13, C14); should a connection result, nothing was negotiated and nothing it writes may be compressed
+	{c02Unsolicited, true, websocket.CompressionDisabled, "permessage-deflate"},
 	{"client/nct+both-resp", true, websocket.CompressionNoContextTakeover, "permessage-deflate; client_no_context_takeover; server_no_context_takeover"},
 	{"client/nct+client_no_ctx-resp", true, websocket.CompressionNoContextTakeover, "permessage-deflate; client_no_context_takeover; server_no_context_takeover; server_max_window_bits=15"},
 }
+
+const c02Unsolicited = "client/off+unsolicited-resp"
 
 var c02Thresholds = []int{0, 1, 64, 512, 5000, 100000}
 
@@ -466,6 +472,13 @@ func runC02(t fataler, mode c03Mode, threshold int, ops []outOp, closeCode int, 
 	e := newEnv(t)
 	defer e.Teardown()
 	lc, err := e.open(connSpec{Client: mode.Client, Mode: mode.Mode, Threshold: threshold, Ext: mode.Ext})
+	if mode.Name == c02Unsolicited {
+		if err != nil {
+			evid.For("C02").Class("unsolicited-extension-in-the-response:dial-refused", 1)
+			return "", res
+		}
+		lc.Agreed = wsx.Agreed{} // no offer, no agreement
+	}
 	if err != nil {
 		return "handshake: " + err.Error(), res
 	}
